@@ -534,6 +534,17 @@ func (env *SpecEnv) typedFact(v Val) {
 	if f := env.vc.g.rangeFact(v.T, v.S); f != "true" {
 		env.vc.assume("true", f)
 	}
+	// a reference read from the heap of state st is allocated in st (same well-formedness fact as for loads in code)
+	if env.st != nil && env.st.top != "" {
+		switch v.T.Underlying().(type) {
+		case *types.Pointer, *types.Map, *types.Chan:
+			env.vc.assume(env.st.guard, fmt.Sprintf("(<= (base %s) %s)", v.S, env.st.top))
+		case *types.Slice:
+			env.vc.assume(env.st.guard, fmt.Sprintf("(<= (base (sl_arr %s)) %s)", v.S, env.st.top))
+		case *types.Interface:
+			env.vc.assume(env.st.guard, fmt.Sprintf("(<= (base (ival %s)) %s)", v.S, env.st.top))
+		}
+	}
 }
 
 func (env *SpecEnv) localVarQuiet(name string) (Val, bool) {
@@ -802,6 +813,16 @@ func (env *SpecEnv) call(x SCall) Val {
 			env.fail("addr() of non-addressable value")
 		}
 		return Val{S: v.Addr, Sort: sInt, T: types.NewPointer(v.T)}
+	case "base":
+		// allocation identity of a reference (the unit "fresh" and the frame conditions talk about)
+		v := arg(0)
+		r := v.S
+		if v.Sort == sSlice {
+			r = "(sl_arr " + v.S + ")"
+		} else if v.Sort == sIface {
+			r = "(ival " + v.S + ")"
+		}
+		return Val{S: "(base " + r + ")", Sort: sInt}
 	case "fresh":
 		v := arg(0)
 		if env.old == nil {
@@ -934,6 +955,9 @@ func (env *SpecEnv) call(x SCall) Val {
 		for i, p := range m.Params {
 			n.vars[p] = env.eval(x.Args[i])
 		}
+		if mp := env.eng.pkgByPath[m.PkgPath]; mp != nil {
+			n.pkg = mp
+		}
 		return n.eval(m.Expr)
 	}
 	// spec functions
@@ -944,7 +968,11 @@ func (env *SpecEnv) call(x SCall) Val {
 		var as []string
 		for i := range x.Args {
 			v := arg(i)
-			_, psort := env.eng.specType(f.Params[i].Type, env.pkg)
+			pp := env.pkg
+			if f.pkg != nil {
+				pp = f.pkg
+			}
+			_, psort := env.eng.specType(f.Params[i].Type, pp)
 			if v.Sort == "nil" {
 				v.Sort = psort
 				if psort == sSlice {
@@ -967,7 +995,11 @@ func (env *SpecEnv) call(x SCall) Val {
 				env.vc.assumeOnce(app(wt, h))
 			}
 		}
-		t, srt := env.eng.specType(f.Result, env.pkg)
+		rp := env.pkg
+		if f.pkg != nil {
+			rp = f.pkg
+		}
+		t, srt := env.eng.specType(f.Result, rp)
 		return Val{S: app("spec_"+x.Fun, as...), Sort: srt, T: t}
 	}
 	env.fail("unknown function %s in spec", x.Fun)
